@@ -42,9 +42,11 @@ PRE = [
     's := "x" $* %d' % (2 * N),
     "q := Foo(list(1 to %d), 0)" % N,
     "t: list = list(1 to %d)" % N,          # an annotated variable: op-assignment must still empty it while the operator runs
+    "e := {:[]}", "e[1] = list(1 to %d)" % N,   # a dict WITH a default whose entry is a payload: `e[1] f= v` must empty the entry while f runs
+    "g := {1: list(1 to %d), 2: [5]}" % N,      # the same without a default
     "b := null", "c := null",
 ]
-VARS = ["a", "b", "c", "d", "m", "q", "s", "t", "v", "y"]
+VARS = ["a", "b", "c", "d", "e", "g", "m", "q", "s", "t", "v", "y"]
 
 # (source, kind, var, path-to-mutated-container)   kind: "mut" or "share"
 MENU = [
@@ -56,10 +58,12 @@ MENU = [
     ("v[3] = 7", "mut", "v", []), ("y[3] = 7", "mut", "y", []), ('s[3] = "z"', "mut", "s", []),
     ("q[fld] append= 5", "mut", "q", ["f0"]), ("q[fld][2] = 9", "mut", "q", ["f0"]), ("q[num] = 3", "mut", "q", None),
     ("t append= 1", "mut", "t", []), ("t ++= [1]", "mut", "t", []), ("t[5] = 7", "mut", "t", []), ("t[6] += 1", "mut", "t", []),
+    ("e[1] append= 5", "mut", "e", ["k0"]), ("e[1] ++= [1]", "mut", "e", ["k0"]), ("e[1][2] = 7", "mut", "e", ["k0"]), ("e[1][3] += 1", "mut", "e", ["k0"]),
+    ("pop e[1]", "mut", "e", ["k0"]), ("g[1] append= 5", "mut", "g", ["k0"]), ("g[1][2] = 7", "mut", "g", ["k0"]), ("g[2] append= 1", "mut", "g", ["k1"]),
     ("b[0] = 1", "mut", "b", []), ("b[1][1] = 1", "mut", "b", [1]), ("c[0][0] = 1", "mut", "c", [0]), ("b[fld][0] = 1", "mut", "b", ["f0"]),
     ("b = a", "share", None, None), ("b = m", "share", None, None), ("b = m[1]", "share", None, None), ("b = d", "share", None, None),
     ("b = q", "share", None, None), ("b = v", "share", None, None), ("b = y", "share", None, None), ("b = s", "share", None, None),
-    ("b = t", "share", None, None), ("b = null", "share", None, None), ("c = [a, m]", "share", None, None), ("c = null", "share", None, None), ("c = m[1]", "share", None, None),
+    ("b = t", "share", None, None), ("b = e", "share", None, None), ("b = e[1]", "share", None, None), ("c = g[1]", "share", None, None), ("b = null", "share", None, None), ("c = [a, m]", "share", None, None), ("c = null", "share", None, None), ("c = m[1]", "share", None, None),
 ]
 
 
@@ -128,6 +132,11 @@ def payload_counts(dump, var, path):
             if v[0] != "o":
                 return None
             v = v[2][0]
+        elif isinstance(p, str) and p[0] == "k":
+            j = int(p[1:])
+            if v[0] != "d" or not isinstance(v[1], list) or j >= len(v[1]):
+                return None
+            v = v[1][j][1]
         else:
             if v[0] != "l" or v[1] == "..." or not isinstance(v[1], list) or p >= len(v[1]):
                 return None
@@ -242,7 +251,7 @@ def loop_src(body, n, k, alias):
 
 def cases(tier):
     base = 1000
-    loops = LOOPS if tier != "quick" else LOOPS[::2]
+    loops = LOOPS
     for (lname, setup, body) in loops:
         for alias in ALIASING:
             if alias[0] == "realiased" and ("pop" in lname or "remove" in lname):
